@@ -175,15 +175,10 @@ func checkC12(c *Ctx, r *Report) {
 	}
 	// notifier side: addConn closes every registered channel for non-limited conns, after the conn is in the table
 	if f := r1.need("(*" + swarmP + ".Swarm).addConn"); f != nil {
-		// (each step directly in addConn, or at the call of a helper extracted since)
-		closes := findInstrs(f, func(in ssa.Instruction) bool {
-			return siteLike(in, func(x ssa.Instruction) bool { return isCallTo(x, "builtin.close") })
-		})
+		closes := findInstrs(f, func(in ssa.Instruction) bool { return isCallTo(in, "builtin.close") })
 		tableAdd := findInstrs(f, func(in ssa.Instruction) bool {
-			return siteLike(in, func(x ssa.Instruction) bool {
-				mu, ok := x.(*ssa.MapUpdate)
-				return ok && strings.Contains(types.TypeString(mu.Map.Type(), nil), "swarm.Conn")
-			})
+			mu, ok := in.(*ssa.MapUpdate)
+			return ok && strings.Contains(types.TypeString(mu.Map.Type(), nil), "swarm.Conn")
 		})
 		ok := len(closes) >= 1 && len(tableAdd) == 1
 		if ok {
@@ -370,7 +365,7 @@ func checkC12(c *Ctx, r *Report) {
 		if f.Pkg == nil || strings.HasSuffix(f.Pkg.Pkg.Path(), controlsPkg) {
 			continue
 		}
-		for _, st := range findInstrs(f, fieldWritePred(netP+".Stats.Limited")) {
+		for _, st := range findInstrsIn(f, fieldWritePred(netP+".Stats.Limited")) {
 			v, isC := constBool(st.(*ssa.Store).Val)
 			if isC && !v {
 				continue
@@ -382,8 +377,36 @@ func checkC12(c *Ctx, r *Report) {
 				r4.Fail(key, instrPos(st), "a connection is marked limited outside the relay client", "")
 				continue
 			}
-			w, n := (&Cut{Fn: f, Target: isInstr(st), EdgeCut: edgeNil(isCallResult(0, "(*"+"p2p/protocol/circuitv2/pb.StopMessage).GetLimit", "(*p2p/protocol/circuitv2/pb.HopMessage).GetLimit"), false)}).Run(c)
+			// decided in the function that holds the relay's message: the writer itself, or — when the translation was
+			// moved into a helper since — every pinned function that calls it
+			hosts := []*ssa.Function{f}
+			if inlinable(f) {
+				hosts = nil
+				for _, g := range c.Fns {
+					if g.Pkg == nil || g.Pkg.Pkg.Path() != Mod+cliP || inlinable(g) {
+						continue
+					}
+					for _, in := range findInstrs(g, isInstr(st)) {
+						_ = in
+						hosts = append(hosts, g)
+					}
+				}
+			}
+			w, n := "", 0
+			if len(hosts) == 0 {
+				w = "no caller"
+			}
+			for _, g := range hosts {
+				w1, n1 := (&Cut{Fn: g, Target: isInstr(st), EdgeCut: edgeNil(isCallResult(0, "(*"+"p2p/protocol/circuitv2/pb.StopMessage).GetLimit", "(*p2p/protocol/circuitv2/pb.HopMessage).GetLimit"), false)}).Run(c)
+				n += n1
+				if w1 != "" {
+					w = w1
+				}
+			}
 			r4.Check(w == "", key, instrPos(st), n+1, "under limit != nil", "marked limited without a limit from the relay", w)
+			if len(hosts) > 1 {
+				nW += len(hosts) - 1
+			}
 		}
 	}
 	if nW < 2 {
@@ -397,7 +420,7 @@ func checkC12(c *Ctx, r *Report) {
 			continue
 		}
 		var lim []CFGEdge
-		for _, b := range f.Blocks {
+		for _, b := range blocksDeep(f) {
 			for s := range b.Succs {
 				if edgeNil(isCallResult(0, "(*p2p/protocol/circuitv2/pb.StopMessage).GetLimit", "(*p2p/protocol/circuitv2/pb.HopMessage).GetLimit"), false)(b, s) {
 					lim = append(lim, CFGEdge{b, s})
@@ -426,7 +449,7 @@ func checkC12(c *Ctx, r *Report) {
 	}
 	// every use of addrsFromBytes' result is as the argument of removeRelayAddrs
 	for _, f := range c.FnsOfPkg(hpP) {
-		for _, call := range callsIn(f, hpP+".addrsFromBytes") {
+		for _, call := range callsInOnly(f, hpP+".addrsFromBytes") {
 			uses := finalUses(call.(ssa.Value))
 			ok := len(uses) > 0
 			for _, u := range uses {
@@ -516,7 +539,44 @@ func checkC12(c *Ctx, r *Report) {
 				nn = append(nn, ret)
 			}
 		}
-		r5.guard(f, "return conn", nn, "!isRelayAddress(c.RemoteMultiaddr())", edgeBool(isCallResult(0, hpP+".isRelayAddress"), false), nil)
+		isRelayTest := func(v ssa.Value) bool {
+			ci := isResultOfCall(v, 0, hpP+".isRelayAddress")
+			return ci != nil && isResultOfCall(ci.Common().Args[0], 0, "(core/network.ConnMultiaddrs).RemoteMultiaddr", "(core/network.*).RemoteMultiaddr") != nil
+		}
+		for _, ret := range nn {
+			// the connection returned: the loop variable past the test, or conns[i] with i found by a predicate that
+			// implies the test
+			handled := false
+			if ld, ok := strip2(retVal(ret.(*ssa.Return), 0)).(*ssa.UnOp); ok && ld.Op == token.MUL {
+				if ia, ok := ld.X.(*ssa.IndexAddr); ok {
+					if ic, ok := strip2(ia.Index).(*ssa.Call); ok && strings.HasPrefix(calleeKey(ic), "slices.IndexFunc") && (strip(ic.Call.Args[0]) == strip(ia.X) || sameExpr(ic.Call.Args[0], ia.X, 0)) {
+						handled = true
+						mc, isMC := strip2(ic.Call.Args[1]).(*ssa.MakeClosure)
+						var g *ssa.Function
+						th := identity
+						if isMC {
+							g, _ = mc.Fn.(*ssa.Function)
+							th = throughClosure(mc)
+						} else if fn, isFn := strip2(ic.Call.Args[1]).(*ssa.Function); isFn {
+							g = fn
+						}
+						okPred := false
+						if g != nil && g.Blocks != nil {
+							cj := conjunct{name: "!isRelayAddress(c.RemoteMultiaddr())", cond: func(func(ssa.Value) ssa.Value) condPred {
+								return func(v ssa.Value) (bool, bool) { return isRelayTest(v), false }
+							}}
+							okPred = len(answerGuardedBy(c, g, th, []conjunct{cj}, true)) == 0
+						}
+						r5.Check(okPred, fnKey(f)+": the index searched is that of a connection whose remote address is not a relay address", instrPos(ret), 2, "", "a relayed connection is taken for a direct one: hole punching reports success without a direct connection", "")
+						r5.guard(f, "return conns[i]", []ssa.Instruction{ret}, "i >= 0", edgeExcl(func(v ssa.Value) bool { return v == ssa.Value(ic) }, func(v ssa.Value) bool { k, ok := constInt(v); return ok && k == 0 }, ordLT), nil)
+					}
+				}
+			}
+			if !handled {
+				r5.guard(f, "return conn", []ssa.Instruction{ret}, "!isRelayAddress(c.RemoteMultiaddr())", edgeBool(isRelayTest, false), nil)
+			}
+		}
+		r5.Check(len(nn) >= 1, fnKey(f)+": returns a connection", f.Pos(), len(nn), "", "", "")
 	}
 
 	// ---- R6 ---------------------------------------------------------------
